@@ -17,6 +17,7 @@ import (
 	"strings"
 
 	"cosmossdk.io/math"
+	authtypes "github.com/cosmos/cosmos-sdk/x/auth/types"
 )
 
 func sdkInt(v int64) math.Int { return math.NewInt(v) }
@@ -110,6 +111,15 @@ func cmdRun(args []string) {
 	switch *mode {
 	case "app":
 	case "instr":
+		r.instr = NewInstr(w, false)
+		r.mod = r.instr.stack
+	case "instrauth":
+		// the authority is the gov MODULE account; "AUTH" now denotes that address
+		gov := authtypes.NewModuleAddress("gov")
+		authorityOverride = gov.String()
+		delete(w.acctName, w.acct["AUTH"].String())
+		w.acct["AUTH"] = gov
+		w.acctName[gov.String()] = "AUTH"
 		r.instr = NewInstr(w, false)
 		r.mod = r.instr.stack
 	case "instrswap":
